@@ -1,0 +1,15 @@
+//go:build verif
+
+// Contracts for the verif build tag (comment-only; see /verif/DESIGN.md §4).
+package protobuf
+
+//@ // generated protobuf plumbing: the reflective view of a message (frame only)
+//@ func (x *FlowType1) ProtoReflect() (r)
+//@   ensures nn: !isnil(r)
+//@   noeffect
+//@   trusted
+//@
+//@ func (x *FlowType2) ProtoReflect() (r)
+//@   ensures nn: !isnil(r)
+//@   noeffect
+//@   trusted
